@@ -205,11 +205,12 @@ mod verif_mpsc {
         let st = state_with([TaskState::Runnable, BLOCKED, BLOCKED], 0, std::rc::Rc::new(RefCell::new(SpecSched::new())));
         let bound = if which == 0 { None } else { Some(1) };
         let m: usize = if kani::any() { 1 } else { 0 };
-        // a receiver (task 2) waits only on an empty channel; a sender (task 1) only on a full bounded one
+        // a receiver (task 2) waits only on an empty channel; a sender (task 1) only on a bounded one: on a full one, or on
+        // an EMPTY one too (a recv has just freed the slot and woken it but it has not run yet; rendezvous: no receiver)
         let rw: bool = kani::any();
         kani::assume(!rw || m == 0);
         let sw: bool = kani::any();
-        kani::assume(!sw || (bound.is_some() && m == 1));
+        kani::assume(!sw || bound.is_some());
         let others: usize = if kani::any() { 1 } else { 0 };
         let (senders, receivers) = if which == 2 { (1, 1 + others) } else { (1 + others, 1) };
         let ch = Arc::new(mk(bound, m, sw, rw, receivers, senders));
